@@ -51,7 +51,7 @@ func atoms() []atom {
 		{"L0", "0", nil, false}, {"L1", "1", nil, true}, {"L-1", "-1", nil, true},
 		{"L0.0", "0.0", nil, false}, {"L0.5", "0.5", nil, true},
 		{"Ls", "''", nil, false}, {"Lsd", `""`, nil, false}, {"Ls0", "'0'", nil, true}, {"Lsa", "'a'", nil, true}, {"Lssp", "' '", nil, true},
-		{"Lnull", "null", nil, false}, {"Lnone", "none", nil, false},
+		{"Lnull", "null", nil, false},
 		{"Ll", "[]", nil, false}, {"Ll0", "[0]", nil, true}, {"Llnull", "[null]", nil, true},
 		{"Lm", "{}", nil, false}, {"Lma", "{'a': 0}", nil, true},
 	}
